@@ -13,6 +13,21 @@ TOL_ORACLE32 = 1e-3       # the same in the default float32 / complex64 configur
 ACTS = ["tanh", "relu", "id"]
 
 
+def run_driver_parallel(lines, workers=4):
+    """common.run_driver on `workers` interleaved slices of the request list (the Lean driver is single-threaded;
+    replies are put back in request order)"""
+    import concurrent.futures
+    if len(lines) < 2 * workers:
+        return common.run_driver("C20", lines)
+    parts = [lines[i::workers] for i in range(workers)]
+    with concurrent.futures.ThreadPoolExecutor(workers) as ex:
+        outs = list(ex.map(lambda part: common.run_driver("C20", part), parts))
+    replies = [None] * len(lines)
+    for i, out in enumerate(outs):
+        replies[i::workers] = out
+    return replies
+
+
 # ------------------------------------------------------------------------------------------
 # generators (every number is stored in the case, so a case replays without the seed)
 
@@ -314,8 +329,12 @@ def eval_prog():
             L = _FourierLayer(2, 3, linear_connection=bool(lin), skip_connection=bool(skip), bias=True)
             x = torch.linspace(-1, 1, 16).reshape(1, 8, 2).clone()
             before = [bits(torch, x)] + [bits(torch, torch.view_as_real(q) if q.is_complex() else q) for q in L.parameters()]
-            with torch.no_grad():
-                L(x)
+            try:
+                with torch.no_grad():
+                    L(x)
+            except Exception as e:
+                out.append((lin, skip, f"{type(e).__name__}: {e}"[:300]))
+                continue
             after = [bits(torch, x)] + [bits(torch, torch.view_as_real(q) if q.is_complex() else q) for q in L.parameters()]
             names = ["points"] + [n for n, _ in L.named_parameters()]
             out.append((lin, skip, [n for n, a, b in zip(names, before, after) if not torch.equal(a, b)]))
@@ -325,6 +344,8 @@ def eval_prog():
 # ------------------------------------------------------------------------------------------
 
 def evaluate(case):
+    import torch
+    torch.set_num_threads(1)      # tiny tensors; be a good neighbour
     k = case["kind"]
     if k == "layer":
         return eval_layer(case), ([] if case["f32"] else layer_lines(case))
@@ -355,6 +376,9 @@ def judge(rep, case, res, replies):
     if kind == "prog":
         for (lin, skip, written), reply in zip(res["prog"], replies):
             rep.count("prog")
+            if isinstance(written, str):
+                rep.fail(f"_FourierLayer(2, 3, linear={lin}, skip={skip}) raised on an (1, 8, 2) input: {written}", dict(case, lin=lin, skip=skip))
+                continue
             if "points" in written:
                 rep.fail(f"_FourierLayer(linear={lin}, skip={skip}).forward modified its input tensor", case)
             model_clean = reply.startswith("points=p kernel=k ")
@@ -415,7 +439,7 @@ def run(ctx, rep, cases=None):
         spans.append((len(lines), len(lines) + len(ls)))
         lines += ls
     try:
-        replies = common.run_driver("C20", lines)
+        replies = run_driver_parallel(lines)
     except common.DriverFailure:
         for c, r in zip(cases, results):
             if c["kind"] in ("layer", "fno"):
